@@ -143,7 +143,15 @@ func (s *Stream) readMore(minSize int) (err error) {
 	}
 
 	if recvLen == 0 && !s.IsOpen() {
-		return ErrEndOfStream
+		// the last message and the close may both have arrived after the moveTo above: what was delivered
+		// before the close has to be offered before the end of the stream is reported
+		s.pendingData.moveTo(s.recvBuf)
+		if s.recvBuf.Len() >= minSize {
+			return nil
+		}
+		if s.recvBuf.Len() == 0 {
+			return ErrEndOfStream
+		}
 	}
 
 	var timeoutCh <-chan time.Time
